@@ -72,7 +72,7 @@ def correspondence(ctx, verdict, pr):
     return res
 
 
-MANIFEST = {'technique': 'Coq invariant proofs over all label sequences (faults, closes, timers) of a session-pair model; model tied to multiplex.Session by lock-step differential execution under testing/synctest; schedule-point replays for the races inside a label', 'level_text': 'Theorems C12_teardown_complete, C12_nothing_left_blocked, C12_connections_closed, C12_fault_closes_sessions, C12_timer_only_when_idle and the invariant C12_wellformed_always are proved in Coq for EVERY sequence of labels (open/write/read/accept/close stream/close session/deliver on any connection/FIN/reset/timer tick, both sides, any number of connections, any connection picks) of the hand-written session-pair model coq/Model/Mux.v by induction with an explicit invariant. The model is tied to the code on every run: seeded scenarios are executed label by label on two real Sessions over harness-owned in-memory connections (virtual clock, quiescence barrier) and on the extracted model, every observable (frames on the wire, return values, blocked calls returning, connection closes, counters) is compared; an independent oracle checks prefix delivery, count = open streams at quiescent moments, no call left blocked, connections closed. The two races that live inside a label (OpenStream vs Close, inactivity check vs stream registration) are replayed with schedule points.', 'level_note': "Granularity: one label runs to quiescence; goroutine interleavings inside a label are covered only by the schedule-point replays, the race detector and C13's fine-grained model. The count invariant (activeStreamCount = open streams) is checked by the oracle at every state dump, not yet a theorem. Connections are FIFO and a reset is seen by both ends (property text). Trusted: Coq kernel, extraction, synctest.", 'design_ref': 'DESIGN.md section 6, C12'}
+MANIFEST = {'technique': 'Coq invariant proofs over all label sequences (faults, closes, timers) of a session-pair model; model tied to multiplex.Session by lock-step differential execution under testing/synctest; schedule-point replays for the races inside a label', 'level_text': 'Theorems C12_teardown_complete, C12_nothing_left_blocked, C12_connections_closed, C12_closed_session_has_closed_its_connections (every closed session, however it was closed, has run closeAll and closed its end of every pooled connection), C12_fault_closes_sessions, C12_count_equals_open_streams (at every quiescent moment of a live session activeStreamCount = number of open streams, mod 2^32), C12_timer_only_when_idle / C12_timer_closes_only_without_open_streams and the invariant C12_wellformed_always are proved in Coq for EVERY sequence of labels (open/write/read/accept/close stream/close session/deliver on any connection/FIN/reset seen by both ends/connection broken but not yet noticed/one read loop noticing/timer tick, both sides, any number of connections, any connection picks) of the hand-written session-pair model coq/Model/Mux.v by induction with explicit invariants. The model is tied to the code on every run: seeded scenarios are executed label by label on two real Sessions over harness-owned in-memory connections (virtual clock, quiescence barrier) and on the extracted model, every observable (frames on the wire, failed sends, return values, blocked calls returning, connection closes, counters, per-side blocked calls) is compared; an independent oracle checks prefix delivery, count = open streams and closed-session-has-closed-connections at every quiescent moment, no call left blocked, new streams refused. The races inside a label (OpenStream vs Close, inactivity check vs stream registration, simultaneous close of one stream from both ends) are replayed with schedule points / parked goroutines.', 'level_note': "Granularity: one label runs to quiescence; goroutine interleavings inside a label are covered only by the schedule-point replays, the parked-goroutine window drivers, the race detector, the generated atomicity obligations (Proofs/AtomMux.v over coq/Gen/Atomicity.v) and C13's fine-grained model. The count theorem assumes fresh stream ids at the opener (fresh_opens). Connections are FIFO. Trusted: Coq kernel, extraction, synctest, the lockscan translator.", 'design_ref': 'DESIGN.md section 6, C12'}
 
 
 # ---- concurrency windows (tools/props/winlib.py): simultaneous close from both ends
